@@ -362,7 +362,11 @@ CvPartial(i, pd, N) ==
   LET d == CvSort([lab |-> pd.lab, fold |-> pd.fold, x |-> pd.x, dd |-> pd.dd])
       fmn == FoldMeansOp(d)  pp == PairProductsOp(fmn, i, N)  av == AverageOp2(fmn, pp) IN
   [lab |-> av.lab, vec |-> av.vec, rates |-> av.rates, ub |-> <<>>, pairs |-> pp.pairs, folds |-> fmn.folds,
-   grp |-> [g \in 1..Len(av.lab) |-> Grp(av.lab[g])], ext |-> <<>>]
+   grp |-> [g \in 1..Len(av.lab) |-> Grp(av.lab[g])],
+   \* _build_rdms on the (sorted) dataset: an extra descriptor survives iff constant within every condition
+   ext |-> IF "ext" \notin DOMAIN pd THEN <<>>
+           ELSE IF Len(av.lab) # Len(pd.lab) /\ ~ConstWithin(pd, pd.ext) THEN <<>>
+           ELSE [g \in 1..Len(av.lab) |-> pd.ext[IndexOf(pd.lab, av.lab[g])]]]
 CvOutOf(i, fold) ==
   LET sp == CvPartial(i, [lab |-> i.lab, fold |-> fold, x |-> i.x, dd |-> 1], i.prec) IN
   [lab |-> sp.lab, grp |-> sp.grp, ext |-> <<>>, time |-> <<>>,
